@@ -100,36 +100,6 @@ theorem first1_eq {s : Step} (hs : s.Term I) {o : Option (Nat × St)} {st' : St}
 
 end Step.Term
 
-/-! ### closure of `NoDiv` and `Inv` (derived forms) -/
-
-namespace Step.NoDiv
-
-private theorem iff_term {s : Step} : s.NoDiv ↔ s.Term (fun _ => True) :=
-  ⟨Step.Term.ofNoDiv (fun _ => trivial), Step.Term.toNoDiv (fun _ => trivial)⟩
-
-theorem append {s : Step} {f : St → Step} (hs : s.NoDiv) (hf : ∀ st, (f st).NoDiv) :
-    (s.append f).NoDiv :=
-  iff_term.2 ((iff_term.1 hs).append (fun st _ => iff_term.1 (hf st)))
-
-theorem bind {P : Nat → Prop} {s : Step} {f : Nat → St → Step} (hs : s.NoDiv) (ha : s.All P)
-    (hf : ∀ n st, P n → (f n st).NoDiv) : (s.bind f).NoDiv :=
-  iff_term.2 ((iff_term.1 hs).bind ha (fun n st hn _ => iff_term.1 (hf n st hn)))
-
-theorem bindFR {P : Nat → Prop} {s : Step} {f g : Nat → St → Step} (hs : s.NoDiv) (ha : s.All P)
-    (hf : ∀ n st, P n → (f n st).NoDiv) (hg : ∀ n st, P n → (g n st).NoDiv) :
-    (s.bindFR f g).NoDiv :=
-  iff_term.2 ((iff_term.1 hs).bindFR ha (fun n st hn _ => iff_term.1 (hf n st hn))
-    (fun n st hn _ => iff_term.1 (hg n st hn)))
-
-theorem mapSt {s : Step} {f : Nat → St → St} (hs : s.NoDiv) : (s.mapSt f).NoDiv :=
-  iff_term.2 ((iff_term.1 hs).mapSt (fun _ _ _ => trivial))
-
-theorem onNil {s : Step} {f : St → St} (hs : s.NoDiv) : (s.onNil f).NoDiv :=
-  iff_term.2 ((iff_term.1 hs).onNil (fun _ _ => trivial))
-
-theorem force {s : Step} (hs : s.NoDiv) (cnt : Nat) (cur : Option Nat) : (s.force cnt cur).NoDiv :=
-  iff_term.2 ((iff_term.1 hs).force cnt cur)
-
-end Step.NoDiv
+/- (closure lemmas for `NoDiv` / `Inv` themselves live in Proofs/InvCalc) -/
 
 end Rx
